@@ -26,6 +26,7 @@ struct Tally {
     wrapped_learns: u64,
     quote_learns: u64,
     commits_after_backspace: u64,
+    histories_with_leftover_tmp: u64,
 }
 fn flush(t: &Tally, out: &mut Out) {
     out.count("evaluations", t.calls);
@@ -42,10 +43,13 @@ fn flush(t: &Tally, out: &mut Out) {
     out.count("store_file_checked_after_commit", t.store_checks);
     out.count("restarts", t.restarts);
     out.count("commits_from_a_list_returned_by_backspace", t.commits_after_backspace);
+    out.count("histories_starting_with_a_leftover_temporary_store_file", t.histories_with_leftover_tmp);
 }
 
-const BASES: [&str; 14] = ["onno", "ami", "as", "kotha", "sesh", "ebong", "hothat", "amar", "tumi", "boi", "Ami", "kal", "smile", "a"];
-const SFX: [&str; 10] = ["gulo", "e", "er", "ke", "ra", "i", "o", "te", "mala", "der"];
+// (the last three contain characters that need escaping in the JSON store or are special in a regular expression)
+const BASES: [&str; 17] = ["onno", "ami", "as", "kotha", "sesh", "ebong", "hothat", "amar", "tumi", "boi", "Ami", "kal", "smile", "a", "a\\k", "k^o", "$ami"];
+// (the last three are the longest keys of the suffix table: 12 and 13 letters)
+const SFX: [&str; 13] = ["gulo", "e", "er", "ke", "ra", "i", "o", "te", "mala", "der", "shombondhiyo", "shombondhiyoo", "shombondhiyoi"];
 
 #[derive(Clone)]
 struct Learned {
@@ -137,6 +141,13 @@ fn store_ok(root: &std::path::Path) -> Result<Option<String>, String> {
 
 fn run_history(o: &PhonOracle, spec: CfgSpec, steps: &[Step], root: &std::path::Path, final_restart_check: bool, out: &mut Out, t: &mut Tally) {
     fresh_root(root);
+    // what a save interrupted between writing and renaming leaves behind: a temporary file next to the store (in the
+    // histories whose first word is typed past its end - a quarter of them -, longer than any store of the history)
+    if steps.first().map_or(false, |s| s.overshoot > 0) {
+        let junk = format!("{{\"left\":\"over\",\"pad\":\"{}\"}}", "x".repeat(4000));
+        let _ = std::fs::write(selection_file(root).with_extension("json.tmp"), junk);
+        t.histories_with_leftover_tmp += 1;
+    }
     let Ok(mut sess) = Sess::new(spec, root) else { return };
     let mut model: HashMap<String, Learned> = HashMap::new();
     let mut since_restart = true;
@@ -343,9 +354,9 @@ impl Prop for C09 {
         "C09"
     }
     fn rule(&self) -> String {
-        "histories of 5-24 (quick) / 5-40 (thorough) words from a small per-history vocabulary (2-4 of 14 bases, 10 suffixes, 3 wrappings over the C03 punctuation set with quote-heavy weighting; a bare ':' excluded, the escaped colon ':`' included as trailing punctuation), \
+        "histories of 5-24 (quick) / 5-40 (thorough) words from a small per-history vocabulary (2-4 of 17 bases incl. three with a backslash, a caret, a dollar sign, 13 suffixes incl. the three longest of the table, 3 wrappings over the C03 punctuation set with quote-heavy weighting; a bare ':' excluded, the escaped colon ':`' included as trailing punctuation), \
          suggestions on, English and smart quotes free; every word is typed with front-end protocol selection bytes, the pre-selection is judged against a 20-line model (word -> committed candidate, latest wins; updated only by commits of a non-pre-selected index), \
-         in a quarter of the words 1-2 more letters are typed and erased again so that the list committed from is the answer to a backspace; then either the pre-selected or another index is committed; the store file is parsed after every commit; a context restart before 1 word in 7 and, at the end of every history, every learned text is typed once more in a new context. \
+         in a quarter of the words 1-2 more letters are typed and erased again so that the list committed from is the answer to a backspace; then either the pre-selected or another index is committed; the store file is parsed after every commit; a quarter of the histories start with a left-over temporary store file (4 kB) in the user directory; a context restart before 1 word in 7 and, at the end of every history, every learned text is typed once more in a new context. \
          Re-typings under another wrapping are recorded as observations only. distinct_nontrivial = distinct (text, options, position in history) typings."
             .into()
     }
@@ -362,7 +373,7 @@ impl Prop for C09 {
     fn minima(&self, _tier: Tier) -> Vec<(&'static str, u64)> {
         vec![
             ("learning_commits", 3_000), ("default_commits_checked_store_unchanged", 3_000), ("same_text_retypings_judged", 2_000), ("same_text_retypings_judged_in_new_context", 1_000),
-            ("suffix_form_retypings_judged", 150), ("learning_commits_with_wrapping", 1_000), ("learning_commits_with_quotes_and_smart_quotes_on", 100), ("store_file_checked_after_commit", 6_000), ("commits_from_a_list_returned_by_backspace", 1_000),
+            ("suffix_form_retypings_judged", 150), ("learning_commits_with_wrapping", 1_000), ("learning_commits_with_quotes_and_smart_quotes_on", 100), ("store_file_checked_after_commit", 6_000), ("commits_from_a_list_returned_by_backspace", 1_000), ("histories_starting_with_a_leftover_temporary_store_file", 100),
         ]
     }
     fn classify(&self, classifier: &str, _params: &Value, v: &Violation) -> bool {
